@@ -88,6 +88,9 @@ class C13(Prop):
         return {'period': [period, punit], 'unit': unit, 'tol': tol, 'stamps': epoch or [float(s) for s in stamps],
                 'mode': mode, 'text': rng.choice(FORMULAS), 'values': lang.gen_values(rng, n, 'small'),
                 'after_reset': self._after_reset,
+                # a bounded-future formula monitored online after pastify() (bounds written in the unit of the period):
+                # the translation must not touch the unit the time-stamps are read in
+                'pastified': (rng.randrange(4) if (mode.startswith('online') and rng.random() < 0.15) else None),
                 # an update that fails part-way (its sample is None) at some position: the caller catches and goes on
                 'fail_at': (rng.randrange(1, n) if (mode.startswith('online') and n >= 3 and rng.random() < 0.15) else None),
                 'preconfig': ([period * rng.choice([1, 2]), punit, rng.choice([t for t in TOLS if t != tol])]
@@ -123,6 +126,13 @@ class C13(Prop):
         if '[0,2]' in text and P != 1:
             text = text.replace('[0,2]', '[0,%s]' % lang.num(2 * P) if (2 * P).denominator == 1 else '[0,0]')
             sd['text'] = text
+        past = case.get('pastified')
+        if past is not None:
+            text = ['always[0:%d%s] (x >= 1)' % (2 * period, punit), '((next x) >= 1)',
+                    'eventually[%d%s:%d%s] (x <= 2)' % (period, punit, 3 * period, punit),
+                    '(historically[0:%d%s] (x >= 0)) and (next (next (x <= 3)))' % (period, punit)][past]
+            sd['text'] = text
+            v.info['class:pastified'] = 1
         try:
             if case.get('preconfig'):
                 # the object was configured differently before: the last set_sampling_period() call counts
@@ -133,6 +143,8 @@ class C13(Prop):
                 v.info['reconfigured'] = 1
             else:
                 m = drive.Mon(kind, sd)
+            if past is not None:
+                m.pastify()
             base_count = 0
             er = case.get('earlier_run')
             if er and not case.get('preconfig') and '[' not in text:
@@ -209,7 +221,7 @@ class C13(Prop):
                   'gaps' % (period, punit, unit, tol, case['mode'], fmt(stamps, 20), got, exp))
         # jitter must not affect the robustness values: same data on ideal stamps, fresh object
         try:
-            m2 = drive.Mon(kind, sd)
+            m2 = drive.Mon(kind, sd, pastify=past is not None)
             ideal = [float(Fr(i) * P) for i in range(n)]
             if all(isinstance(s, int) for s in stamps) and P.denominator == 1:
                 ideal = [int(Fr(i) * P) for i in range(n)]
